@@ -13,7 +13,7 @@ CONSTANTS
   PutArgs <- PutSim
   ChunkSize = 5000
   MaxRetries = 2
-  Alpha <- AlphaAll
+  Alpha <- AlphaSim
   RefreshAlpha <- RBoth
   MaxRecs = 8
   MaxClock = 6
